@@ -334,13 +334,15 @@ def run(ctx):
     with cf.ThreadPoolExecutor(max_workers=ncpu) as tp:
         for hh, (ok, first, err) in tp.map(one, items):
             if ok is None:
-                raise InfraError("gcc timed out")
+                ctx.count("gcc:timeout(not checked)")
+                continue
             ctx.count("gcc:ok" if ok else "gcc:error")
             if not ok:
                 c, h, r = texts[hh]
                 k = L.classify_gcc(first, err, c, r.get("prog"))
                 gcc_fail.setdefault(k, []).append((r, first, err, c, h))
     ctx.extra["t_gcc_s"] = round(time.time() - t2, 1)
+    gcc_timeouts = ctx.counts.get("gcc:timeout(not checked)", 0)
     ctx.extra["distinct_accepted_texts"] = len(texts)
 
     # identifiers that are C keywords (F11): gcc's message varies, classify by the program
@@ -395,6 +397,8 @@ def run(ctx):
         ctx.violation("obligations:" + broken[0].split(":")[0],
                       f"Lean obligations broken: {broken[:4]}", {"broken": broken}, no_input=True)
     tmp.cleanup()
+    if gcc_timeouts * 10 > max(1, len(items)) and not ctx.violations:
+        raise InfraError(f"gcc timed out on {gcc_timeouts} of {len(items)} texts (machine overloaded?)")
 
 
 def _known_keys(ctx):
